@@ -143,3 +143,15 @@ Proof.
     constructor; [|exact Ht].
     destruct (clip_shape_kept_nonempty sk vb sh s' E) as [->|Hn]; [left; left; reflexivity|right; exact Hn].
 Qed.
+
+(* the painting order is kept: the clipped list is the source list, shape by shape, with the dropped ones left out *)
+Theorem clip_shapes_keeps_order (sk : @skia ROps) (vb : Rct) (l out : list shapeR) :
+  clip_shapes RMath sk vb l = Ok out ->
+  out = flat_map (fun sh => match clip_shape RMath sk vb sh with Ok (Some s) => [s] | _ => [] end) l.
+Proof.
+  revert out. induction l as [|sh r IH]; intros out; cbn [clip_shapes flat_map].
+  - intro H. injection H as <-. reflexivity.
+  - destruct (clip_shape RMath sk vb sh) as [o|e]; [|discriminate].
+    destruct (clip_shapes RMath sk vb r) as [t|e]; [|discriminate].
+    intro H. injection H as <-. rewrite (IH t eq_refl). destruct o; reflexivity.
+Qed.
